@@ -9,7 +9,7 @@ COQ_SAMPLE = 40
 IMPL_TIMEOUT = 240
 RULE = ("(1) fault enumeration: generated worlds (imports, references, built-ins, secrets, fn::open) re-run with the k-th "
         "collaborator call (LoadEnvironment / LoadProvider / Open / Decrypt, in call order) failing, for every k up to the "
-        "number of calls of the fault-free run, in open and check mode, compared with the model; (2) cyclic imports, "
+        "number of calls the world can make (a static bound: every position is faulted; one failing call per plan), in open and check mode, compared with the model incl. the NUMBER of error diagnostics; (2) cyclic imports, "
         "self-imports, reference cycles, imports that fail to load or to parse, dangling references, wrong argument types; "
         "(3) implementation-only stream: shape errors for every built-in and top-level section, and byte-level mutations of "
         "valid documents, offered to LoadYAMLBytes, Check/EvalEnvironment, EncryptSecrets and DecryptSecrets.  "
@@ -78,6 +78,33 @@ def mutate(rng, b):
     return bytes(b)
 
 
+def _count(e, kinds):
+    if not isinstance(e, tuple):
+        return 0
+    n = 1 if e[0] in kinds else 0
+    for x in e[1:]:
+        if isinstance(x, tuple):
+            n += _count(x, kinds)
+        elif isinstance(x, list):
+            for y in x:
+                if isinstance(y, tuple) and len(y) == 2 and isinstance(y[0], str) and isinstance(y[1], tuple):
+                    n += _count(y[1], kinds)          # (key, expr) entry of an object
+                elif isinstance(y, tuple):
+                    n += _count(y, kinds)
+    return n
+
+
+def call_bound(c):
+    defs = [c["def"]] + [e["def"] for e in c["envs"].values() if e.get("kind") == "def"]
+    n = 0
+    for d in defs:
+        n += len(d["imports"])
+        for _, e in d["values"]:
+            n += 2 * _count(e, ("open",)) + _count(e, ("cipher",))
+    # an environment reached through several paths is evaluated once; listed-but-failing ones are loaded per listing
+    return n + 2
+
+
 def gen(rng, tier):
     thorough = tier == "thorough"
     cases = []
@@ -107,13 +134,18 @@ def gen(rng, tier):
         c["check"] = r.chance(1, 3)
         c["show"] = r.chance(1, 2)
         cases.append(dict(c, kind="ev"))
-        for f in range(12 if thorough else 8):
+        # one case per collaborator call position: an upper bound of the number of calls is read off the world (loads of
+        # every listed import, LoadProvider + Open per fn::open site, one Decrypt per ciphertext; a failing call can only
+        # shorten the run), so EVERY position is faulted; beyond the last call the plan is a no-op (non-trivial = false)
+        ncalls = call_bound(c)
+        for f in range(min(ncalls + 1, 40 if thorough else 20)):
             cases.append(dict(c, kind="ev", fault=f))
     # directed: multi-argument built-ins over every pairing of plain / secret / unknown arguments
     for j, c in enumerate(G.flag_matrix_worlds()):
         for mode in (False, True):
             cases.append(dict(c, kind="ev", check=mode, show=True))
-        cases.append(dict(c, kind="ev", check=False, show=True, fault=0))
+        for f in range(4):
+            cases.append(dict(c, kind="ev", check=False, show=True, fault=f))
     # arguments of the WRONG SHAPE in one position while the other positions hold references / interpolations (which must
     # still be evaluated: an argument that is skipped leaves its expression unresolved for the final export)
     bad = [("num", "1"), ("arr", []), ("obj", [("k", ("str", "v"))]), ("null",), ("bool", True), ("sym", [("name", "nope")]),
